@@ -88,6 +88,16 @@ def gen_history(rng, ctx):
             ann.append((seq[1], ('launch_end', sc)))
         if rng.random() < 0.3:
             ann += [(a, None) for a in H.unrelated(rng, 1) if not str(a[0]).startswith(('DYLD_', 'PERF_', 'DBG_DYLD'))]
+        mapped = [t for _, t in ann if t and t[0] == 'map']
+        if mapped and rng.random() < 0.35:
+            # an UNMAP record that repeats the uuid and the address of an earlier announcement (dlclose, then another image
+            # is mapped at that address): the property gives such records no part in the attribution - an address
+            # announced twice keeps its first identity
+            _, a, u = rng.choice(mapped)
+            ann.append((H.uuid_record('DYLD_uuid_unmap_a', u, a), None))
+            if rng.random() < 0.7:
+                u2 = pick_uuid()
+                ann.append((H.uuid_record('DYLD_uuid_map_a', u2, a), ('map', a, u2)))
     samples = []
     prev_frames = []
     smp = []      # sampler thread program
@@ -122,7 +132,8 @@ def gen_history(rng, ctx):
         has_hdr = rng.random() < 0.9
         nested = []
         if rng.random() < 0.5:
-            nested.append(H.thd_data(77, 20))
+            # (which thread the sample says it walked - itself, another one - is not whose sample it is)
+            nested.append(H.thd_data(rng.choice((77, 77, 78)), rng.choice((20, 20, 30, 0x999))))
         if has_hdr:
             nested.append(H.stk_uhdr(rng.randrange(512), nframes))
         data_words = frames + [rng.getrandbits(40) for _ in range(4 * n_records - len(frames))]
